@@ -414,11 +414,13 @@ fn judge(sc: &Scenario, r: &OneRun) -> Option<(String, String)> {
   if r.counter != r.wsections {
     return Some(("C10:lost-update".into(), format!("protected counter = {} after {} exclusive critical sections", r.counter, r.wsections)));
   }
-  // try_ variants never block: a thread whose whole program is try_ ops takes no park/yield/spin step
+  // try_ variants never block: a thread whose whole program is try_ ops takes no park/yield step
+  // (the release of a guard obtained by try_ may spin briefly on the wait-list spinlock in
+  // wake_next / wake_waiters: that is the guard drop, not the try_ call, and it never parks)
   for (ti, ops) in sc.threads.iter().enumerate() {
     if !ops.is_empty() && ops.iter().all(|o| is_try(o)) {
       for rec in &r.trace {
-        if rec.tid == ti && matches!(rec.ev.kind, Kind::Park | Kind::ParkTimeout | Kind::Yield | Kind::Spin | Kind::Sleep) {
+        if rec.tid == ti && matches!(rec.ev.kind, Kind::Park | Kind::ParkTimeout | Kind::Yield | Kind::Sleep) {
           return Some(("C10:try-blocked".into(), format!("thread {ti} (try_ ops only) executed a {} step", sched::kind_name(rec.ev.kind))));
         }
       }
